@@ -204,29 +204,31 @@ def is_placeholder(s: str) -> bool:
 
 
 class Q:
-    __slots__ = ("c", "t", "inexact")
+    __slots__ = ("c", "k", "b", "_t", "inexact")
 
     def __new__(cls, value=0, denominator=None):
         self = object.__new__(cls)
-        self.t = None
+        self.k = None
+        self.b = None
+        self._t = None
         self.inexact = False
         if denominator is not None:
             value = _coerce(value) / _coerce(denominator)
         if isinstance(value, Q):
-            self.c, self.t, self.inexact = value.c, value.t, value.inexact
+            self.c, self.k, self.b, self._t, self.inexact = value.c, value.k, value.b, value._t, value.inexact
             return self
         if isinstance(value, str):
             s = value.strip()
             ph = PLACEHOLDERS.lookup(s)
             if ph is not None:
                 self.c = None
-                self.t = ph[0]
+                self.k, self.b = _ONE, ph[0]
                 return self
             if s.startswith("-"):
                 ph = PLACEHOLDERS.lookup(s[1:].strip())
                 if ph is not None:
                     self.c = None
-                    self.t = -ph[0]
+                    self.k, self.b = -_ONE, ph[0]
                     return self
             if len(s) == 9 and s[0] == "9" and s.isdigit():
                 # a reserved literal that is not registered on this path: a stale string
@@ -248,7 +250,7 @@ class Q:
             return self
         if isinstance(value, z3.ArithRef):
             self.c = None
-            self.t = value if value.is_real() else z3.ToReal(value)
+            self.k, self.b = _ONE, (value if value.is_real() else z3.ToReal(value))
             return self
         if isinstance(value, numbers.Rational):
             self.c = Fraction(value.numerator, value.denominator)
@@ -272,6 +274,16 @@ class Q:
     def sym(self):
         return self.c is None
 
+    @property
+    def t(self):
+        """full z3 term of a symbolic value: k * b (coefficient times base term).  Keeping
+        the rational coefficient outside the term makes results that differ only by the
+        order of constant factors syntactically equal, which is what lets the solver decide
+        floor-division / modulo covariance"""
+        if self._t is None:
+            self._t = self.b if self.k == 1 else _rv(self.k) * self.b
+        return self._t
+
     def term(self):
         return self.t if self.c is None else _rv(self.c)
 
@@ -279,7 +291,21 @@ class Q:
     def _mk(cls, c=None, t=None, inexact=False):
         self = object.__new__(cls)
         self.c = c
-        self.t = t
+        self.k = _ONE if t is not None else None
+        self.b = t
+        self._t = None
+        self.inexact = inexact
+        return self
+
+    @classmethod
+    def _mks(cls, k, b, inexact=False):
+        if k == 0:
+            return cls._mk(_ZERO, inexact=inexact)
+        self = object.__new__(cls)
+        self.c = None
+        self.k = k
+        self.b = b
+        self._t = None
         self.inexact = inexact
         return self
 
@@ -307,6 +333,8 @@ class Q:
             return a
         if a.c is not None and a.c == 0:
             return b
+        if a.c is None and b.c is None and z3.eq(a.b, b.b):
+            return Q._mks(a.k + b.k, a.b, inx)
         return Q._mk(t=a.term() + b.term(), inexact=inx)
 
     __radd__ = __add__
@@ -320,6 +348,10 @@ class Q:
             return Q._mk(a.c - b.c, inexact=inx)
         if b.c is not None and b.c == 0:
             return a
+        if a.c is None and b.c is None and z3.eq(a.b, b.b):
+            return Q._mks(a.k - b.k, a.b, inx)
+        if a.c is not None and a.c == 0:
+            return Q._mks(-b.k, b.b, inx)
         return Q._mk(t=a.term() - b.term(), inexact=inx)
 
     def __rsub__(a, b):
@@ -337,11 +369,12 @@ class Q:
             return Q._mk(a.c * b.c, inexact=inx)
         for u, v in ((a, b), (b, a)):
             if u.c is not None:
-                if u.c == 1:
+                if u.c == 1 and not u.inexact:
                     return v
                 if u.c == 0:
                     return Q._mk(_ZERO)
-        return Q._mk(t=a.term() * b.term(), inexact=inx)
+                return Q._mks(v.k * u.c, v.b, inx)
+        return Q._mks(a.k * b.k, a.b * b.b, inx)
 
     __rmul__ = __mul__
 
@@ -355,15 +388,19 @@ class Q:
                 raise ZeroDivisionError("Q(%s, 0)" % (a,) if a.c is not None else "Q/0")
             if a.c is not None:
                 return Q._mk(a.c / b.c, inexact=inx)
-            if b.c == 1:
+            if b.c == 1 and not b.inexact:
                 return a
-            return Q._mk(t=a.t * _rv(1 / b.c), inexact=inx)
+            return Q._mks(a.k / b.c, a.b, inx)
         # symbolic divisor: Fraction raises on zero, z3's division is total -> fork
         if b.__eq__(0):
             raise ZeroDivisionError("division by a symbolic value that can be zero")
-        if a.c is not None and a.c == 0:
-            return Q._mk(_ZERO)
-        return Q._mk(t=a.term() / b.t, inexact=inx)
+        if a.c is not None:
+            if a.c == 0:
+                return Q._mk(_ZERO)
+            return Q._mks(a.c / b.k, 1 / b.b, inx)
+        if z3.eq(a.b, b.b):
+            return Q._mk(a.k / b.k, inexact=inx)
+        return Q._mks(a.k / b.k, a.b / b.b, inx)
 
     def __rtruediv__(a, b):
         b = _coerce(b)
@@ -439,7 +476,7 @@ class Q:
                 return a
             if abs(n) > 12:
                 raise _eng.Concretized(f"symbolic ** {n}: exponent too large to encode")
-            t = a.t
+            t = a.b
             p = t
             for _ in range(abs(n) - 1):
                 p = p * t
@@ -447,7 +484,7 @@ class Q:
                 if a.__eq__(0):
                     raise ZeroDivisionError("symbolic zero ** negative")
                 p = 1 / p
-            return Q._mk(t=p, inexact=inx)
+            return Q._mks(a.k**n, p, inx)
         # non-integer exponent
         if a.c is not None:
             # Fraction ** Fraction(non-integer) -> float in Python; keep its exact binary
@@ -474,7 +511,7 @@ class Q:
     def __neg__(a):
         if a.c is not None:
             return Q._mk(-a.c, inexact=a.inexact)
-        return Q._mk(t=-a.t, inexact=a.inexact)
+        return Q._mks(-a.k, a.b, a.inexact)
 
     def __pos__(a):
         return a
@@ -482,7 +519,7 @@ class Q:
     def __abs__(a):
         if a.c is not None:
             return Q._mk(abs(a.c), inexact=a.inexact)
-        return Q._mk(t=z3.If(a.t >= 0, a.t, -a.t), inexact=a.inexact)
+        return Q._mks(abs(a.k), z3.If(a.b >= 0, a.b, -a.b), a.inexact)
 
     # -- uninterpreted transcendental pair (numpy object ufuncs dispatch to methods) --
 
